@@ -34,7 +34,8 @@ def _plugs(pairs, mech) -> List[Dict[str, Any]]:
     """pairs: [(plug id, charger object)] -> [{id, rr, ir, valid}]"""
     rr = _ranks(c.rate for _, c in pairs)
     ir = _ranks(p for p, _ in pairs)
-    return [{"id": p, "rr": rr[c.rate], "ir": ir[p], "valid": bool(mech.valid_charger(c))} for p, c in pairs]
+    return sorted(({"id": p, "rr": rr[c.rate], "ir": ir[p], "valid": bool(mech.valid_charger(c))} for p, c in pairs),
+                  key=lambda x: x["ir"])
 
 
 def _max_k(sim, env) -> int:
